@@ -704,6 +704,11 @@ def lifecycle():
              and re.search(r"active_info\.frames\.push\(msg\);\s*if !is_last_user_part \{\s*return Ok\(\(\)\);", rsend) else 0)
     m_take = re.search(r"if let Some\(active_info\) = current_send_target_guard\.as_mut\(\) \{(.*?)let Some\(active_info\) = current_send_target_guard\.take\(\) else", rsend, re.S)
     emit_nat("routerTxClosedBeforeAwait", 1 if m_take and ".await" not in m_take.group(1) else 0)
+    psend = fn_body("core/src/socket/pub_socket.rs", "send", within="impl ISocket for PubSocket")
+    m_pub = re.search(r"let mut parts = self\.pending_parts\.lock\(\);\s*if msg\.is_more\(\) \|\| !parts\.is_empty\(\) \{(.*?)Err\(std::mem::replace\(&mut \*parts, FrameBatch::new\(\)\)\)", psend, re.S)
+    emit_nat("pubTxBuffersUntilLast", 1 if m_pub and re.search(r"let more = msg\.is_more\(\);\s*parts\.push\(msg\);\s*if more \{\s*return Ok\(\(\)\);", m_pub.group(1)) else 0)
+    emit_nat("pubTxClosedBeforeAwait", 1 if m_pub and ".await" not in psend[:psend.find("Err(std::mem::replace(&mut *parts, FrameBatch::new()))")]
+             and re.search(r"Err\(frames\) => return self\.send_multipart\(frames\)\.await,", psend) else 0)
     emit_nat("dealerPendingBoundedBySndhwm", 1 if re.search(r"if queue_guard\.len\(\) < global_sndhwm \{", dl) else 0)
     # multipart stash: what happens to the unread frames of a message on deregister / recv_multipart
     ai = strip_comments(src("core/src/socket/patterns/anonymous_ingress.rs"))
